@@ -31,9 +31,15 @@ LEVEL_TEXT = ('static analysis: (D1) expect_flat_log2 and shift_sex_chroms, comp
               'the masks, flat profile and covariates computed once per pool are not mutated by the per-sample functions (effects fix-point); '
               '(D10) every sample is centred by center_all on its covered autosomal bins (C15-D1 rule); (D9) do_reference hands combine_probes '
               'the given sex for every sample, or the inferred one: the antitarget call where there is one, else the target call (a sample '
-              'callable only from antitargets keeps its call). Does not decide the biweight arithmetic (C19), behaviour with corrections on, or '
-              'sex inference accuracy.')
-TECHNIQUE = "abstract interpretation over chromosome classes x sex flags (symbolic noise terms); dominance; exact rational identities; role-flow; effect summaries"
+              'callable only from antitargets keeps its call). (D11) the `reference` command line, through a model of argparse built from the '
+              'declarations in commands.py: for every accepted spelling of -x / --sample-sex (and none), x -y, x the correction switches, '
+              '_cmd_reference hands do_reference that sex, reference sex, PAR genome, switches and the target / antitarget files; (C19-D6) '
+              'biweight_location and biweight_midvariance, interpreted on 11 literal vectors with exact rationals, equal an independent '
+              "transcription of Tukey's formulas (majority-tied data included). Does not decide behaviour with corrections on, or sex inference "
+              'accuracy.')
+TECHNIQUE = ('abstract interpretation over chromosome classes x sex flags (symbolic noise terms); dominance; exact rational identities; role-'
+             'flow; effect summaries; argparse model for the command-line glue; exact evaluation of the estimators against formula '
+             'transcriptions')
 
 REF = "cnvlib.reference"
 CLS4 = ["auto", "x", "parx", "y"]
